@@ -1,0 +1,24 @@
+//go:build verif
+
+// Package verifhook gives the verification harness (a separate module) access to internal packages.
+// It only exists in builds with the "verif" tag.
+package verifhook
+
+import (
+	"encoding/json"
+
+	"github.com/basecomplextech/spec/internal/lang/parser"
+)
+
+// ParseDump parses schema source text and returns the syntax tree as JSON (encoding/json of syntax.File).
+func ParseDump(src string) (string, error) {
+	f, err := parser.New().Parse(src)
+	if err != nil {
+		return "", err
+	}
+	b, err := json.Marshal(f)
+	if err != nil {
+		return "", err
+	}
+	return string(b), nil
+}
